@@ -1151,7 +1151,7 @@ func pickFirstVisibleNamespace(ps *PushContext, byNamespace map[string]*Service,
 // If it does not exist, return an empty string.
 // Best is defined as:
 // 1. contains a Kubernetes service and is visible to configNamespace
-// 2. contains the oldest non-Kubernetes service which is visible to configNamespace
+// 2. contains the oldest non-Kubernetes service which is visible to configNamespace (ties: by name, then namespace)
 // This does not consider whether a svc is in the configNamespace,
 // the calling logic has already attempted a direct lookup of byNamespace[configNamespace]
 func pickBestVisibleNamespace(ps *PushContext, byNamespace map[string]*Service, configNamespace string) string {
@@ -1162,8 +1162,10 @@ func pickBestVisibleNamespace(ps *PushContext, byNamespace map[string]*Service, 
 			if svc.Attributes.ServiceRegistry == provider.Kubernetes {
 				return svc.NamespacedName().Namespace
 			}
-			// if this is the first visible service, or it's older than our current best, then it is the new best that we have seen
-			if currentBestService == nil || svc.CreationTime.Before(currentBestService.CreationTime) {
+			// if this is the first visible service, or it's older than our current best, then it is the new best that we have seen.
+			// byNamespace is a map, so ties on creation time (which only has second granularity) must be broken by a
+			// total rule, otherwise the iteration order would decide; use the same one as SortServicesByCreationTime.
+			if currentBestService == nil || compareServicesByCreationTime(svc, currentBestService) < 0 {
 				currentBestService = svc
 			}
 		}
